@@ -84,4 +84,33 @@ PROPERTIES = {
             part("C16.history", shards={"quick": 8, "thorough": 16}, floor=200),
         ],
     },
+    "C04": {
+        "level": "exploration",
+        "level_text": "differential monitoring of the three real rulesets (real blocks in a real blockchain) against reference rules written from the papers, exhaustive over all "
+                      "forests up to a size bound and all presentation orders, random forests beyond; every vote, lock and commit decision compared",
+        "level_note": "reference = harness implementation of HotStuff Alg.4/5 (with the implementation's consecutive-view requirement), Fast-HotStuff, Jehl's simple HotStuff; "
+                      "lock read through reflect (falls back to behavioural comparison if the field disappears)",
+        "technique": "differential monitor against executable reference rules over exhaustive-small + random forests",
+        "exhaustive": True,
+        "rule": "C04: rules differential",
+        "anchors": ["protocol/rules/", "protocol/consensus/ruleset.go", "security/blockchain/blockchain.go"],
+        "parts": [
+            part("C04.exhaustive", shards={"quick": 16, "thorough": 16}, floor=2000),
+            part("C04.random", shards={"quick": 8, "thorough": 16}, floor=500),
+        ],
+    },
+    "C13": {
+        "level": "exploration",
+        "level_text": "model-based monitoring of the real Blockchain (store/get/fetch/ancestry) against a reference forest, exhaustive for <=3 blocks and random beyond, and of the real "
+                      "Committer+PruneToHeight under a scripted commit rule with CommitEvent/AbortEvent observed on the event loop",
+        "level_note": "the stub sender serves withheld blocks honestly (the hash check on fetched blocks lives in network.qspec and is exercised under C12); commit targets are chosen by the scenario",
+        "technique": "reference-model monitor over operation sequences + event-history check (abort vs commit)",
+        "exhaustive": True,
+        "rule": "C13: block store model",
+        "anchors": ["security/blockchain/blockchain.go", "protocol/consensus/committer.go"],
+        "parts": [
+            part("C13.store", shards={"quick": 12, "thorough": 16}, floor=500),
+            part("C13.prune", shards={"quick": 8, "thorough": 16}, floor=500),
+        ],
+    },
 }
